@@ -48,3 +48,11 @@
 (declare-fun mnemWords ((Array Int Int) Int) (Array Int Str))
 ;@ needs mnemWords
 (assert (forall ((A (Array Int Int)) (o Int) (m Int)) (! (= (select (mnemWords A o) m) (select wordlist (val12 A o m))) :pattern ((select (mnemWords A o) m)))))
+; decbyte(S, q): byte q of the decoding of phrase S (words 2u, 2u+1 give bytes 3u, 3u+1, 3u+2)
+(declare-fun decbyte (Str Int) Int)
+(assert (forall ((S Str) (q Int))
+  (! (= (decbyte S q)
+        (ite (= (mod q 3) 0) (div (widx (tok S (* 2 (div q 3)))) 16)
+        (ite (= (mod q 3) 1) (+ (* 16 (mod (widx (tok S (* 2 (div q 3)))) 16)) (div (widx (tok S (+ (* 2 (div q 3)) 1))) 256))
+             (mod (widx (tok S (+ (* 2 (div q 3)) 1))) 256))))
+     :pattern ((decbyte S q)))))
